@@ -43,6 +43,8 @@ THEOREMS = [
     "C17_default_copy_witness",
     "C17_xf_list_index_order",
     "C17_xf_list_sorted_witness",
+    "C17_class_per_definition_repaired",
+    "C17_class_per_definition_witness",
 ]
 RULE = (
     "generated definitions written to REAL source files in the case's cwd and imported from there (inspect/ast "
@@ -533,6 +535,15 @@ def gen_xf_case(rng, tier, idx, kind=None, n=None):
                 spec.append([x, ann, d])
             case["spec"] = spec
             case["spec_form"] = "dict"
+            if spec and rng.random() < 0.1:
+                # earlier in the session ANOTHER specification was used that python gives the same hash: it differs in
+                # one default only, by a value with the same hash (hash(-1) == hash(-2); 1 == True, 0 == False)
+                i = rng.randrange(len(spec))
+                a, b = rng.choice([("i-1", "i-2"), ("i-2", "i-1"), ("i1", "bT"), ("bT", "i1"), ("i0", "bF"), ("bF", "i0")])
+                spec[i] = [spec[i][0], None, a]
+                alts.pop(spec[i][0], None)
+                case["prior_spec"] = [list(e) for e in spec]
+                case["prior_spec"][i] = [spec[i][0], None, b]
         params = [{"name": x, "ann": a, "default": d, "alts": alts.get(x)} for x, a, d in case["spec"]]
         case["runs"] = [gen_run(rng, ctr, params) for _ in range(nruns)]
     elif kind == "df":
@@ -605,6 +616,13 @@ def gen_xf_case(rng, tier, idx, kind=None, n=None):
         case["fields"] = fields
         case["already"] = rng.random() < 0.5
         case["how"] = rng.choice(["decorator", "decorator", "prior"])
+        if rng.random() < 0.08:
+            # earlier in the session ANOTHER dataclass with the same `__name__` was turned into a node class
+            pn = rng.randrange(0, 4)
+            # (hinted `object`: while the defect is in the tree the instances are made from THIS class and are handed the
+            # values generated for the class under test; type checking of values is C04's business)
+            case["prior_fields"] = [[x, "object", "v", f"i{900 + j}"] for j, x in enumerate(rng.sample(NAMES, pn))]
+            case["api"] = "factory"
         params = [{"name": x, "ann": a, "default": d, "alts": alts.get(x)} for x, a, _k, d in fields]
         case["runs"] = [gen_run(rng, ctr, params) for _ in range(nruns)]
     return case
@@ -671,6 +689,33 @@ def corpus():
     yield {"kind": "dc", "id": "c-dc3", "n": 2, "api": "class", "already": False,
            "fields": [["x", "int", "v", "i0"], ["z", "list", "f", "list(i1,i2)"]],
            "runs": [{"inst": [[], {}], "call": [["i4"], {}], "again": True}]}
+    # the registry of made classes: a second specification with the hash of an earlier one (hash(-1) == hash(-2)), a
+    # second dataclass with the `__name__` of an earlier one
+    yield {"kind": "dict", "id": "c-d1", "n": 1, "api": "helper", "spec_form": "dict",
+           "spec": [["a", None, "i-2"]], "prior_spec": [["a", None, "i-1"]],
+           "runs": [{"inst": [[], {}], "call": [[], {}]}]}
+    yield {"kind": "dict", "id": "c-d2", "n": 2, "api": "class", "spec_form": "dict",
+           "spec": [["flag", None, "bT"], ["k", "int", None]], "prior_spec": [["flag", None, "i1"], ["k", "int", None]],
+           "runs": [{"inst": [[], {"k": "i3"}], "call": [[], {}]}]}
+    yield {"kind": "dc", "id": "c-dc5", "n": 1, "api": "factory", "already": True, "how": "decorator",
+           "fields": [["y", "str", "v", "sabc"]], "prior_fields": [["x", "int", "v", "i1"]],
+           "runs": [{"inst": [[], {}], "call": [[], {}]}]}
+    # the sentinel idiom, a shared mutable default, and sizes past one digit (item_10 is not item_2's neighbour)
+    yield {"kind": "fn", "id": "c-f2", "params": [{"name": "value", "ann": None, "default": None},
+                                                   {"name": "fallback", "ann": None, "default": "@0.object",
+                                                    "alts": ["@0.object", "@1.object"]},
+                                                   {"name": "acc", "ann": "list", "default": "@16.list"}],
+           "rets": [["I0:1", "r0", "r0 = _T(0, value, fallback, acc) if fallback is _P[0] else _T(50, value, fallback, acc)"]],
+           "single_tuple": False, "ret_style": "values", "declared": None, "validate": True, "ret_ann": None,
+           "future": False, "api": "fn_node", "layout": "line",
+           "runs": [{"inst": [["i5"], {}], "call": [[], {}], "again": True},
+                    {"inst": [[], {}], "call": [["i5", "@1.object"], {}]},
+                    {"inst": [[], {"fallback": "@0.object"}], "call": [["i5"], {"acc": "@17.list"}]}]}
+    yield {"kind": "list", "id": "c-l2", "n": 12, "api": "helper",
+           "runs": [{"inst": [[f"sv{i}" for i in range(5)], {}],
+                     "call": [[], {f"item_{i}": f"sv{i}" for i in reversed(range(5, 12))}]}]}
+    yield {"kind": "unpack", "id": "c-u1", "n": 11, "api": "class",
+           "runs": [{"inst": [[], {}], "call": [["list(" + ",".join(f"i{i}" for i in range(11)) + ")"], {}]}]}
     # a transformer asked twice
     yield {"kind": "list", "id": "c-l1", "n": 1, "api": "helper",
            "runs": [{"inst": [["i1"], {}], "call": [[], {}], "again": True}]}
@@ -784,20 +829,29 @@ def dc_source(case, h):
         if k == "f":
             lines += [f"def _fac_{x}():", f"    return {lit(d)}", ""]
 
-    def cls(name, deco):
-        out = ["@dataclass"] if deco else []
-        out.append(f"class {name}:")
-        if not case["fields"]:
-            out.append("    pass")
-        for x, ann, k, d in case["fields"]:
+    def cls(name, deco, fields=None, fac="_fac_", indent=""):
+        fields = case["fields"] if fields is None else fields
+        out = [indent + "@dataclass"] if deco else []
+        out.append(f"{indent}class {name}:")
+        if not fields:
+            out.append(indent + "    pass")
+        for x, ann, k, d in fields:
             if k == "n":
-                out.append(f"    {x}: {ann}")
+                out.append(f"{indent}    {x}: {ann}")
             elif k == "v":
-                out.append(f"    {x}: {ann} = {lit(d)}")
+                out.append(f"{indent}    {x}: {ann} = {lit(d)}")
             else:
-                out.append(f"    {x}: {ann} = field(default_factory=_fac_{x})")
+                out.append(f"{indent}    {x}: {ann} = field(default_factory={fac}{x})")
         out.append("")
         return out
+
+    if case.get("prior_fields") is not None:
+        # ANOTHER dataclass with the same `__name__` as the class under test (think `Input` in two modules)
+        for x, _ann, k, d in case["prior_fields"]:
+            if k == "f":
+                lines += [f"def _facp_{x}():", f"    return {lit(d)}", ""]
+        lines += ["def _mk_prior():"] + cls(f"D_{h}_0", True, case["prior_fields"], "_facp_", "    ")
+        lines += [f"    return D_{h}_0", "", f"Prior_{h} = _mk_prior()", ""]
 
     # one class object per use (class-level preview + one per run when the instantiating helper is used): handing
     # the SAME class to the node factory twice is the `prior` way of being "already a dataclass"
@@ -837,7 +891,19 @@ def _variant():
         n.recovery = None
         n()
         cached = 1 if isinstance(n(), DotDict) else 0
-        _VARIANT = [recast, cached]
+        # the class registry: two specifications with one hash / two dataclasses with one name
+        try:
+            T.inputs_to_dict_factory({"probe_c17": (None, -1)}, None)
+            by_hash = 1 if T.inputs_to_dict_factory({"probe_c17": (None, -2)}, None).preview_inputs()["probe_c17"][1] == -1 else 0
+        except Exception:  # noqa: BLE001
+            by_hash = 1
+        try:
+            mk = lambda fs: dataclasses.make_dataclass("_ProbeC17SameName", fs)  # noqa: E731
+            T.dataclass_node_factory(mk([("x", int, 1)]))
+            by_name = 1 if "x" in T.dataclass_node_factory(mk([("y", int, 2)])).preview_inputs() else 0
+        except Exception:  # noqa: BLE001
+            by_name = 1
+        _VARIANT = [recast, cached, by_hash, by_name]
     return _VARIANT
 
 
@@ -979,6 +1045,12 @@ def _reference(sig_params, a1, k1, a2, k2):
     return {"status": status, "b1": dict(b1), "explicit": explicit}
 
 
+def _def_line(prev, kind):
+    return ("def ok ins=[" + ",".join(f"{k}:{hint_tok(hint)}={tok(d)}" for k, (hint, d) in prev["inputs"].items())
+            + "] outs=[" + ",".join(f"{k}:{'*' if kind == 'dc' else hint_tok(hint)}" for k, hint in prev["outputs"].items())
+            + "]")
+
+
 def run_impl(case):
     variant = list(_variant())
     if case["kind"] == "malformed":
@@ -1057,11 +1129,23 @@ def _run(case, h, modname, variant):
             ref_fn = lambda m: [m[f"item_{i}"] for i in range(n)]  # noqa: E731
             py_defaults = [E] * n
         elif kind == "dict":
+            T.inputs_to_dict_factory.clear()  # every case starts with an empty registry of made classes
+
+            def mkspec(sp):
+                return {x: (None if a is None else eval(a, ns), NOT_DATA if d is None else val(d)) for x, a, d in sp}
+
+            if case.get("prior_spec") is not None:
+                # ANOTHER specification was turned into a node class earlier in the session
+                pcls = T.inputs_to_dict_factory(mkspec(case["prior_spec"]), None)
+                obs.append(_def_line(pcls.preview_io(), kind))
+                facts["regkeys"] = [[pcls.__name__, 1]]
             if case["spec_form"] == "list":
                 spec = [x for x, _a, _d in case["spec"]]
             else:
-                spec = {x: (None if a is None else eval(a, ns), NOT_DATA if d is None else val(d)) for x, a, d in case["spec"]}
+                spec = mkspec(case["spec"])
             cls = T.inputs_to_dict_factory(spec, None)
+            if "regkeys" in facts:
+                facts["regkeys"].append([cls.__name__, 2])
             make_inst = (lambda a, k: T.inputs_to_dict(spec, *a, **k)) if case["api"] == "helper" else (lambda a, k: cls(*a, **k))
             ref_params = [(x, E if d is None else val(d)) for x, _a, d in case["spec"]]
             py_defaults = [d for _x, d in ref_params]
@@ -1099,6 +1183,13 @@ def _run(case, h, modname, variant):
             B = getattr(mod, f"B_{h}")
             ncls = len(case["runs"]) + 1 if case["api"] == "helper" else 1
             Ds = [getattr(mod, f"D_{h}_{i}") for i in range(ncls)]
+            T.dataclass_node_factory.clear()  # every case starts with an empty registry of made classes
+            if case.get("prior_fields") is not None:
+                # ANOTHER dataclass of the same `__name__` was turned into a node class earlier in the session
+                Prior = getattr(mod, f"Prior_{h}")
+                pcls = T.dataclass_node_factory(Prior)
+                obs.append(_def_line(pcls.preview_io(), kind))
+                facts["regkeys"] = [[Prior.__name__, 1], [Ds[0].__name__, 2]]
             if case["already"] and case.get("how", "decorator") == "prior":
                 for D in Ds:
                     T.as_dataclass_node(D)  # an earlier use of the same class (node class thrown away)
@@ -1120,6 +1211,9 @@ def _run(case, h, modname, variant):
                 cls = type(T.dataclass_node(Ds[0], True))
                 use = iter(Ds[1:])
                 make_inst = lambda a, k: T.dataclass_node(next(use), True, *a, **k)  # noqa: E731
+            elif case["api"] == "factory":
+                cls = T.dataclass_node_factory(Ds[0])  # what `dataclass_node` does, class kept for the instances
+                make_inst = lambda a, k: cls(*a, **k)  # noqa: E731
             else:
                 cls = T.as_dataclass_node(Ds[0])
                 make_inst = lambda a, k: cls(*a, **k)  # noqa: E731
@@ -1134,9 +1228,7 @@ def _run(case, h, modname, variant):
     # ---- class-level description ------------------------------------------------------------------------
     pin = prev["inputs"]
     pout = prev["outputs"]
-    line = "def ok ins=[" + ",".join(f"{k}:{hint_tok(hint)}={tok(d)}" for k, (hint, d) in pin.items()) + "] outs=[" \
-        + ",".join(f"{k}:{'*' if kind == 'dc' else hint_tok(hint)}" for k, hint in pout.items()) + "]"
-    obs.append(line)
+    obs.append(_def_line(prev, kind))
     # what the definition says (independent of the library and of the model): [label, hint object, default token]
     exp_in, exp_out = None, None
     NT = type(None)
@@ -1338,8 +1430,8 @@ def _def_expect(case):
 def model_input(case, impl=None):
     if case["kind"] == "malformed":
         return list(case["lines"])
-    v = (impl or {}).get("variant") or [0, 0]
-    lines = [f"cfg {v[0]} {v[1]}"]
+    v = (impl or {}).get("variant") or [0, 0, 0, 0]
+    lines = [f"cfg {v[0]} {v[1]} {v[2]} {v[3]}"]
     kind = case["kind"]
     if kind == "fn":
         specs = [r[0] for r in case["rets"]] if case["ret_style"] == "values" else []
@@ -1365,8 +1457,22 @@ def model_input(case, impl=None):
     elif kind in ("list", "df", "unpack"):
         lines.append(f"def {kind} {case['n']}")
     elif kind == "dict":
+        rk = (impl or {}).get("facts", {}).get("regkeys")
+        if case.get("prior_spec") is not None and rk:
+            # the names the factory gave the two classes are run-time facts (python's `hash`), observed on the
+            # implementation; the numbers stand for the two specifications themselves
+            lines.append(f"regkey {rk[0][0]} {rk[0][1]}")
+            lines.append(" ".join(["def", "dict", *[f"{x}:{ann_tok(a)}={d if d is not None else '-'}" for x, a, d in case["prior_spec"]]]))
+            if len(rk) > 1:
+                lines.append(f"regkey {rk[1][0]} {rk[1][1]}")
         lines.append(" ".join(["def", "dict", *[f"{x}:{ann_tok(a)}={d if d is not None else '-'}" for x, a, d in case["spec"]]]))
     elif kind == "dc":
+        rk = (impl or {}).get("facts", {}).get("regkeys")
+        if case.get("prior_fields") is not None and rk:
+            lines.append(f"regkey {rk[0][0]} {rk[0][1]}")
+            lines.append(" ".join(["def", "dc", "1",
+                                   *[f"{x}:{k}:{d if d is not None else '-'}:{ann_tok(a)}" for x, a, k, d in case["prior_fields"]]]))
+            lines.append(f"regkey {rk[1][0]} {rk[1][1]}")
         lines.append(" ".join(["def", "dc", "1" if case["already"] else "0",
                                *[f"{x}:{k}:{d if d is not None else '-'}:{ann_tok(a)}" for x, a, k, d in case["fields"]]]))
     if impl is not None and impl.get("facts", {}).get("def_error"):
@@ -1408,6 +1514,10 @@ def oracle(case, r):
     sfacts = {}
     if kind == "dc":
         sfacts = {"already": bool(case["already"]), "has_factory": any(k == "f" for _x, _a, k, _d in case["fields"])}
+        if case.get("prior_fields") is not None:
+            sfacts["prior_same_name"] = True
+    if kind == "dict" and case.get("prior_spec") is not None:
+        sfacts = {"prior_same_hash": True}
     # ---- the definition --------------------------------------------------------------------------
     expect = _def_expect(case)
     if F.get("def_error"):
